@@ -1,8 +1,48 @@
 package alloc
 
+import "github.com/mit-pdos/go-nfsd/verifrt"
+
 // VerifBit reports whether number n is marked in use in the allocator's in-memory bitmap.
 func (a *Alloc) VerifBit(n uint64) bool {
 	a.mu.Lock()
 	defer a.mu.Unlock()
 	return a.bitmap[n/8]&(1<<(n%8)) != 0
+}
+
+// VerifAllocContract (C05, "the space can be used again"): the real first-fit allocator on an arbitrary
+// bitmap of nbytes bytes and an arbitrary scan position. AllocNum returns 0 only when no number in
+// 1..max-1 is free (number 0 is never handed out... unless its bit is clear, see below), otherwise a
+// number whose bit was clear, sets exactly that bit; FreeNum clears exactly the bit of its number. This is
+// the contract the step harnesses substitute for the allocator (`realalloc=0`).
+func VerifAllocContract() {
+	nb := verifrt.Param("allocbytes", 2)
+	bm := verifrt.Bytes("bitmap", nb)
+	pre := make([]byte, nb)
+	copy(pre, bm)
+	a := MkAlloc(bm)
+	a.next = verifrt.U64("next")
+	verifrt.Assume(a.next < nb*8)
+	// number 0 is reserved by every user of the allocator (mkfs marks block 0 and inode 0)
+	verifrt.Assume(pre[0]&1 == 1)
+	n := a.AllocNum()
+	w := verifrt.U64("wit")
+	verifrt.Assume(w < nb*8)
+	wasFree := pre[w/8]&(1<<(w%8)) == 0
+	if n == 0 {
+		verifrt.Assert(!wasFree, "exhaustion-is-reported-only-when-nothing-is-free")
+		verifrt.Cover("full")
+	} else {
+		verifrt.Assert(n < nb*8 && pre[n/8]&(1<<(n%8)) == 0, "number-handed-out-was-free")
+		verifrt.Assert(a.VerifBit(n), "number-handed-out-is-marked")
+		verifrt.Assert(w == n || a.VerifBit(w) == !wasFree, "allocation-touches-no-other-number")
+		verifrt.Cover("allocated")
+		a.FreeNum(n)
+		verifrt.Assert(!a.VerifBit(n), "freed-number-is-free-again")
+		verifrt.Assert(a.VerifBit(w) == !wasFree, "free-touches-no-other-number")
+		// and it can be used again
+		m := a.AllocNum()
+		verifrt.Assert(m != 0, "freed-space-can-be-allocated-again")
+	}
+	verifrt.Assert(a.NumFree() <= nb*8, "numfree-in-range")
+	verifrt.Cover("end")
 }
